@@ -2,6 +2,7 @@ package props
 
 import (
 	"fmt"
+	"math/big"
 	"strings"
 
 	h "verif/harness"
@@ -33,6 +34,9 @@ func init() {
 			var cs []Case
 			for i := 0; i < n; i++ {
 				cs = append(cs, Case{Kind: "tree", Seed: h.Mix(seed, 0xC04, uint64(i))})
+			}
+			for f := h.Frontier; f <= h.Cancun; f++ {
+				cs = append(cs, Case{Kind: "precompiles", P: []int64{int64(f)}})
 			}
 			return cs
 		},
@@ -316,6 +320,24 @@ func checkC04Run(res *CaseResult, sc *scenario, fs *h.ForkSession, mon *frameMon
 			}
 		}
 	}
+	// a frame that reports no error must have ended on an instruction that ends a frame normally: anything else
+	// is an exceptional halt (out of gas, bad jump, stack, write protection ...) passed off as success, its effects kept
+	var halted func(f *frame)
+	halted = func(f *frame) {
+		for _, c := range f.children {
+			halted(c)
+		}
+		if f.exit == nil || f.exit.ErrVal != nil || len(f.steps) == 0 {
+			return
+		}
+		res.Count("successful_frames_checked", 1)
+		if last := f.steps[len(f.steps)-1]; last.Op != h.STOP && last.Op != h.RETURN && last.Op != h.SELFDESTRUCT {
+			res.Fail(Key("halt-without-error", labelClass(label)), fmt.Sprintf("a frame stopped at instruction %#x (pc %d, gas %d, cost %d), which does not end a frame, yet reported no error: an exceptional halt was passed off as success and its effects were kept", last.Op, last.PC, last.Gas, last.Cost), sc.desc(), label, f.exit.Short())
+		}
+	}
+	for _, r := range roots {
+		halted(r)
+	}
 	for _, r := range roots {
 		walk(r)
 		if r.exit != nil && (r.exit.ErrVal != nil) != (ir.Err != nil) {
@@ -417,7 +439,59 @@ func clonePlan(p *h.AspectPlan) *h.AspectPlan {
 	return q
 }
 
+// precompileFailures: value sent to precompiles that fail (malformed input, too little gas) and, for contrast, that
+// succeed - from a nested frame by CALL and CALLCODE and directly as the transaction's target.
+func runC04Precompiles(c Case, res *CaseResult) {
+	fork := h.Fork(c.P[0])
+	type pcall struct {
+		addr  byte
+		inLen uint64
+		gas   uint64
+	}
+	calls := []pcall{{9, 10, 50000}, {9, 213, 50000}, {6, 64, 50000}, {8, 100, 200000}, {1, 128, 100}, {1, 128, 5000}, {5, 96, 1}, {2, 32, 10}, {2, 32, 5000}, {4, 32, 5000}, {4, 32, 1},
+		{0x64, 40, 100}, {0x64, 40, 20000}, {0x65, 32, 100}, {0x66, 7, 20000}, {0x66, 200, 100}, {3, 5, 10}}
+	evals := int64(0)
+	for _, kind := range []byte{h.CALL, h.CALLCODE} {
+		a := h.NewAsm().PushU(1).PushU(0).Op(h.MSTORE).PushU(1).PushU(32).Op(h.MSTORE)
+		a.PushU(7).PushU(1).Op(h.SSTORE)
+		for i, pc := range calls {
+			a.PushU(32).PushU(0x300).PushU(pc.inLen).PushU(0).PushU(uint64(1 + i%4)).PushAddr(common.BytesToAddress([]byte{pc.addr})).PushU(pc.gas).Op(kind)
+			a.PushU(uint64(100 + i)).Op(h.SSTORE)
+		}
+		a.PushU(8).PushU(2).Op(h.SSTORE, h.STOP)
+		// the contract is reached through an outer frame so that the precompile calls are nested two deep
+		outer := h.NewAsm().PushU(0).PushU(0).PushU(0).PushU(0).PushU(5).PushAddr(h.ContractAddr(1)).PushU(2_000_000).Op(h.CALL).PushU(1).Op(h.SSTORE, h.STOP)
+		w := h.BaseWorld([][]byte{outer.Bytes(), a.Bytes()})
+		sc := &scenario{Fork: fork, NContract: 2, World: w, Tx: h.TxSpec{Entry: h.ECall, From: h.Sender, To: h.ContractAddr(0), Input: []byte{1}, Gas: 4_000_000, Value: big.NewInt(2)}}
+		for _, jp := range []bool{false, true} {
+			fs, mon, pre, ir := monitoredRun(sc, nil, jp)
+			checkC04Run(res, sc, fs, mon, pre, ir, fmt.Sprintf("precompile-value-%#x:none", kind))
+			evals++
+			for i := range fs.L.Events {
+				e := &fs.L.Events[i]
+				if e.K == h.KExit && e.ErrVal != nil {
+					res.Count("failed_precompile_frames", 1)
+				}
+			}
+		}
+	}
+	// the failing precompile as the transaction's own target
+	for _, pc := range calls {
+		w := h.BaseWorld(nil)
+		sc := &scenario{Fork: fork, NContract: 0, World: w, Tx: h.TxSpec{Entry: h.ECall, From: h.Sender, To: common.BytesToAddress([]byte{pc.addr}), Input: make([]byte, pc.inLen), Gas: pc.gas, Value: big.NewInt(9)}}
+		fs, mon, pre, ir := monitoredRun(sc, nil, false)
+		checkC04Run(res, sc, fs, mon, pre, ir, "precompile-value-top:none")
+		evals++
+	}
+	res.Evals = evals
+	res.Set("forks", fork.String())
+}
+
 func runC04(c Case, tier string) (res CaseResult) {
+	if c.Kind == "precompiles" {
+		runC04Precompiles(c, &res)
+		return
+	}
 	r := h.NewRNG(c.Seed)
 	sc := genScenario(r, scenOpts{FailPct: 25, ValuePct: 50})
 	plan := bindPlan(r, sc, 40, []uint32{0, 10, 1000}, 0)
